@@ -486,8 +486,8 @@ func c07attack(r *rng.R, i int) attack {
 	case 4:
 		// a client that stops reading while the server writes large replies
 		var vs []resp.Value
-		vs = append(vs, resp.Cmd("SET", "big", strings.Repeat("x", 200000)))
-		for k := 0; k < 60; k++ {
+		vs = append(vs, resp.Cmd("SET", "big", strings.Repeat("x", 500000)))
+		for k := 0; k < 64; k++ { // 32 MB of replies: far more than the socket buffers hold
 			vs = append(vs, resp.Cmd("GET", "big"))
 		}
 		a.Stream = resp.EncodeAll(vs...)
@@ -505,7 +505,10 @@ func c07attack(r *rng.R, i int) attack {
 	return a
 }
 
-func (a attack) play(port int) {
+// play runs the attack. For the never-reading attacker the connection is left open and stalled; the
+// returned function ends it (RST). For every other ending the returned function does nothing.
+func (a attack) play(port int) (finish func()) {
+	finish = func() {}
 	c, err := net.DialTimeout("tcp", fmt.Sprintf("127.0.0.1:%d", port), 5*time.Second)
 	if err != nil {
 		return
@@ -520,9 +523,10 @@ func (a attack) play(port int) {
 	case "noread":
 		tc.SetWriteDeadline(time.Now().Add(2 * time.Second))
 		tc.Write(a.Stream)
-		time.Sleep(50 * time.Millisecond)
-		tc.SetLinger(0)
-		tc.Close()
+		return func() {
+			tc.SetLinger(0)
+			tc.Close()
+		}
 	case "rst":
 		tc.Write(a.Stream)
 		drain(30 * time.Millisecond)
@@ -538,6 +542,7 @@ func (a attack) play(port int) {
 		drain(30 * time.Millisecond)
 		tc.Close()
 	}
+	return
 }
 
 func c07session(idx int) run.Result {
@@ -593,14 +598,33 @@ func c07session(idx int) run.Result {
 			}
 			continue
 		}
-		a.play(srv.port)
-		bad := ""
-		if v, err := wit.do("GET", "w:"+n); err != nil {
-			bad = fmt.Sprintf("GET after attack: %v", err)
-		} else if s, ok := strOf(v); !ok || s != n {
-			bad = fmt.Sprintf("GET w:%s after attack answered %s", n, v)
-		} else if v, err := wit.do("ECHO", n); err != nil || !resp.Equal(v, resp.BulkS(n)) {
-			bad = fmt.Sprintf("ECHO after attack: %v %v", v, err)
+		finish := a.play(srv.port)
+		witness := func() string {
+			if v, err := wit.do("GET", "w:"+n); err != nil {
+				return fmt.Sprintf("GET after attack: %v", err)
+			} else if s, ok := strOf(v); !ok || s != n {
+				return fmt.Sprintf("GET w:%s after attack answered %s", n, v)
+			} else if v, err := wit.do("ECHO", n); err != nil || !resp.Equal(v, resp.BulkS(n)) {
+				return fmt.Sprintf("ECHO after attack: %v %v", v, err)
+			}
+			return ""
+		}
+		// the witness is exercised while a never-reading attacker is still connected and stalled
+		bad := witness()
+		finish()
+		if bad != "" && a.End == "noread" && srv.alive() {
+			// causality: once the stalled attacker is gone, does a fresh witness get served again?
+			if w2, err := dialSrv(srv.port); err == nil {
+				v, err2 := w2.do("ECHO", "released")
+				w2.c.Close()
+				if err2 == nil && resp.Equal(v, resp.BulkS("released")) {
+					bad += " (and the server answered again as soon as the never-reading connection was reset: it had been holding up the other clients)"
+				}
+			}
+			wit.c.Close()
+			if w3, err := dialSrv(srv.port); err == nil {
+				wit = w3
+			}
 		}
 		if bad == "" {
 			fresh, err := dialSrv(srv.port)
